@@ -585,7 +585,14 @@ type ctrlxEnv struct {
 	admitted map[string]bool
 	streams  map[string]*gatedStream
 	mu       sync.Mutex
+
+	cached    ctrlxSnap
+	snapEpoch int64
+	haveSnap  bool
 }
+
+// epoch counts the moments at which state may have changed (a thread was let go, or has settled).
+var epoch atomic.Int64
 
 // register: the harness reads nothing back from the registry here (that would need its lock, which
 // the next thread in line may already hold): Register's own answer says whether the connection is in.
@@ -616,6 +623,7 @@ func (e *ctrlxEnv) setup() error {
 			return fmt.Errorf("prefill refused")
 		}
 	}
+	epoch.Add(1)
 	if e.occupancy() != e.k.pre {
 		return fmt.Errorf("prefill evicted")
 	}
@@ -629,6 +637,16 @@ func (e *ctrlxEnv) release(th *thread, name string) bool         { return false 
 // to what it knows without the lock: connections whose Register succeeded and whose stream has not
 // been closed by an eviction.
 func (e *ctrlxEnv) snap() ctrlxSnap {
+	// nothing moves between two steps: one observation per step boundary is enough
+	if ep := epoch.Load(); e.haveSnap && e.snapEpoch == ep {
+		return e.cached
+	}
+	s := e.snapNow()
+	e.cached, e.snapEpoch, e.haveSnap = s, epoch.Load(), true
+	return s
+}
+
+func (e *ctrlxEnv) snapNow() ctrlxSnap {
 	e.mu.Lock()
 	known := append([]string(nil), e.known...)
 	e.mu.Unlock()
@@ -1289,6 +1307,11 @@ func newEnv(k *kase, g *gate) env {
 
 var timeouts int
 
+// watchdog per gated case; a case takes milliseconds, so a timeout means a hang - or a machine so
+// loaded that the process was not run: execAny repeats a timed-out case once with a long watchdog
+// (the repeat is a fresh execution of the same input; its verdict is the one reported).
+var watchdog = 10 * time.Second
+
 // missing: items of `before` that are not in `after`.
 func missing(before, after []string) []string {
 	now := map[string]bool{}
@@ -1450,9 +1473,11 @@ func execCase(cs string) (obs string) {
 			}
 			before := e.digest()
 			itemsBefore := e.items()
+			epoch.Add(1)
 			g.release(th)
 			g.stale(k.threads)
 			g.quiesce(k.threads)
+			epoch.Add(1)
 			after := e.digest()
 			g.mu.Lock()
 			res, item := th.res, th.resItem
@@ -1522,8 +1547,7 @@ func execCase(cs string) (obs string) {
 	}()
 	select {
 	case <-done:
-	case <-time.After(10 * time.Second):
-		timeouts++
+	case <-time.After(watchdog):
 		g.mu.Lock()
 		g.timeout = true
 		g.cond.Broadcast()
@@ -1701,7 +1725,16 @@ func execAny(cs string) string {
 	if strings.TrimSpace(cs) == "caps" {
 		return execCaps()
 	}
-	return execCase(cs)
+	obs := execCase(cs)
+	if obs == "timeout" {
+		watchdog = 90 * time.Second
+		obs = execCase(cs)
+		watchdog = 10 * time.Second
+		if obs == "timeout" {
+			timeouts++
+		}
+	}
+	return obs
 }
 
 // ------------------------------------------------------------------ main
